@@ -1,6 +1,6 @@
 use cosmwasm_std::{
     coin, coins, ensure, to_json_binary, wasm_execute, BankMsg, Coin, CosmosMsg, Decimal256,
-    DepsMut, Env, MessageInfo, Response, StdResult, SubMsg, Uint256,
+    DepsMut, Env, MessageInfo, Response, StdResult, SubMsg,
 };
 use cosmwasm_std::{Decimal, Uint128};
 use mantra_dex_std::coin::{add_coins, aggregate_coins};
@@ -456,13 +456,15 @@ pub fn withdraw_liquidity(
         .assets
         .iter()
         .map(|pool_asset| {
+            // pool_asset.amount * amount / total_shares, floored. Going through the 18-digit
+            // share_ratio would truncate the share of large reserves (and zero out small
+            // withdrawals from large pools).
             Ok(Coin {
                 denom: pool_asset.denom.clone(),
-                amount: Uint128::try_from(
-                    Decimal256::from_ratio(pool_asset.amount, Uint256::one())
-                        .checked_mul(share_ratio)?
-                        .to_uint_floor(),
-                )?,
+                amount: pool_asset
+                    .amount
+                    .checked_multiply_ratio(amount, total_shares)
+                    .map_err(|e| cosmwasm_std::StdError::generic_err(e.to_string()))?,
             })
         })
         .collect::<Result<Vec<Coin>, ContractError>>()?
